@@ -161,13 +161,16 @@ def trace [Zero R] [Add R] (a : Tensor R) (in0 in1 : List Nat) : Except Err (Ten
 
 /-! ### legs -/
 
-/-- `add_leg(axis, s, t)`: a new one-dimensional leg of charge `t`, signature `sl`, at `axis`;
-the total charge absorbs it: `n' = n + sl·t`. -/
+/-- `add_leg(axis, s, t)`: a new one-dimensional leg of charge `t` (reduced to canonical range),
+signature `sl`, at `axis`; the total charge absorbs it: `n' = n + sl·t`. -/
 def addLeg (a : Tensor R) (axis : Nat) (sl : Int) (t : Charge) : Except Err (Tensor R) :=
   if a.isdiag then .error .diag
   else if axis > a.rank then .error .axes
   else if ¬ (sl = 1 ∨ sl = -1) then .error .signature
+  else if t.length ≠ a.sym.nsym then .error .charge
   else
+    -- `t = sym.add_charges(t, signatures=(s,), new_signature=s)`: the charge is brought to canonical range
+    let t := a.sym.fuse [t] [sl] sl
     .ok { a with s := a.s.take axis ++ [sl] ++ a.s.drop axis,
                  n := a.sym.fuse [a.n, t] [1, sl] 1,
                  blocks := a.blocks.map (fun kb =>
